@@ -512,10 +512,8 @@ func (f *Flow) computeLoopExit(l *Loop, outs map[*ssa.BasicBlock]Facts) Facts {
 		if dep {
 			continue
 		}
-		ga := &Atom{Pred: a.Pred, Neg: a.Neg, Site: a.Site}
-		for _, t := range a.Args {
-			ga.Args = append(ga.Args, generalize(t, l, coll))
-		}
+		ga := a.Subst(generalizeMap(l, coll))
+		ga.Site = a.Site
 		res.Add(&Atom{Pred: "forall", Args: []*Term{coll, atomTerm(ga)}, Site: a.Site})
 	}
 	// uniqueness idiom
